@@ -29,7 +29,41 @@ var flavours = []string{"avx2", "avx", "sse"}
 
 type c18 struct {
 	c02
-	g *gpage
+	g       *gpage
+	jobs    []job18
+	emitted string
+	idx     int
+}
+
+// a job runs once per flavour; flavours are switched once per batch (re-binding loads the native code anew)
+type job18 struct {
+	run  func(flav string)
+	emit func()
+	mark func()
+}
+
+func (c *c18) flush() {
+	for _, fl := range append(append([]string{}, flavours...), "go") {
+		if fl != "go" {
+			conv.VerifNativeFlavour(fl)
+		}
+		for _, j := range c.jobs {
+			j.mark()
+			j.run(fl)
+		}
+	}
+	conv.VerifNativeFlavour("avx2")
+	for _, j := range c.jobs {
+		j.emit()
+	}
+	c.jobs = c.jobs[:0]
+}
+
+func (c *c18) add(j job18) {
+	c.jobs = append(c.jobs, j)
+	if len(c.jobs) >= 400 {
+		c.flush()
+	}
 }
 
 type flavRes struct {
@@ -76,18 +110,34 @@ func (c *c18) j2tCase(jc J2TCase) {
 		}()
 		rs = append(rs, r)
 	}
-	for _, fl := range flavours {
-		conv.VerifNativeFlavour(fl)
+	root, cur, descEv := c.root, c.cur, c.lastEv
+	c.add(job18{mark: c.marker(jc), run: func(fl string) {
+		if fl == "go" {
+			gv := j2tgo.NewBinaryConv(opts)
+			run("go", func(in []byte) ([]byte, error) { return gv.Do(context.Background(), root, in) })
+			return
+		}
 		cv := j2t.NewBinaryConv(opts)
-		run(fl, func(in []byte) ([]byte, error) { return cv.Do(context.Background(), c.root, in) })
+		run(fl, func(in []byte) ([]byte, error) { return cv.Do(context.Background(), root, in) })
+	}, emit: func() {
+		c.emitDesc(descEv)
+		c.out.Emit(map[string]interface{}{"ev": "J2T", "d": d, "s2i": jc.O.S2i, "nob64": jc.O.Nob64, "disallow": jc.O.Disallow,
+			"wreq": jc.O.Wreq, "wdef": jc.O.Wdef, "wopt": jc.O.Wopt, "optbm": jc.O.Optbm, "usedflt": jc.O.Usedflt,
+			"variant": jc.Variant, "res": rs, "text": string(text),
+			"case": J2TCase{Desc: &cur, Variant: jc.Variant, TextB: B(text), O: jc.O}})
+	}})
+}
+
+func (c *c18) emitDesc(ev map[string]interface{}) {
+	if ev != nil && fmt.Sprintf("%p", ev) != c.emitted {
+		c.emitted = fmt.Sprintf("%p", ev)
+		c.out.Emit(ev)
 	}
-	conv.VerifNativeFlavour("avx2")
-	gv := j2tgo.NewBinaryConv(opts)
-	run("go", func(in []byte) ([]byte, error) { return gv.Do(context.Background(), c.root, in) })
-	c.out.Emit(map[string]interface{}{"ev": "J2T", "d": d, "s2i": jc.O.S2i, "nob64": jc.O.Nob64, "disallow": jc.O.Disallow,
-		"wreq": jc.O.Wreq, "wdef": jc.O.Wdef, "wopt": jc.O.Wopt, "optbm": jc.O.Optbm, "usedflt": jc.O.Usedflt,
-		"variant": jc.Variant, "res": rs, "text": string(text),
-		"case": J2TCase{Desc: &c.cur, Variant: jc.Variant, TextB: B(text), O: jc.O}})
+}
+
+func (c *c18) marker(tag interface{}) func() {
+	i := c.idx
+	return func() { c.out.Begin(i, tag) }
 }
 
 // ---- value skipping ----
@@ -100,9 +150,9 @@ type skipRes struct {
 
 func (c *c18) skipCase(t int, b []byte, tag interface{}) {
 	c.cases++
-	in := c.g.place(b)
 	var rs []skipRes
 	one := func(flav string, native bool) {
+		in := c.g.place(b)
 		r := skipRes{Flav: flav}
 		func() {
 			defer func() {
@@ -117,13 +167,12 @@ func (c *c18) skipCase(t int, b []byte, tag interface{}) {
 		}()
 		rs = append(rs, r)
 	}
-	one("go", false)
-	for _, fl := range flavours {
-		conv.VerifNativeFlavour(fl)
-		one(fl, true)
-	}
-	conv.VerifNativeFlavour("avx2")
-	c.out.Emit(map[string]interface{}{"ev": "Skip", "t": t, "b": B(b), "res": rs, "case": tag})
+	c.add(job18{mark: c.marker(tag), run: func(fl string) { one(fl, fl != "go") }, emit: func() {
+		// the Go skipper first: it is the reference the native ones are compared with
+		ord := []skipRes{rs[len(rs)-1]}
+		ord = append(ord, rs[:len(rs)-1]...)
+		c.out.Emit(map[string]interface{}{"ev": "Skip", "t": t, "b": B(b), "res": ord, "case": tag})
+	}})
 }
 
 // ---- text encoders, observed through t2j on a one-field struct ----
@@ -165,10 +214,9 @@ func (c *c18) encCase(fx encFix, kind, cls string, v []byte) {
 		doc = append([]byte{11, 0, 1, byte(len(v) >> 24), byte(len(v) >> 16), byte(len(v) >> 8), byte(len(v))}, v...)
 		doc = append(doc, 0)
 	}
-	in := c.g.place(doc) // strings end right before an inaccessible page
 	var rs []encRes
-	for _, fl := range flavours {
-		conv.VerifNativeFlavour(fl)
+	one := func(fl string) {
+		in := c.g.place(doc) // strings end right before an inaccessible page
 		r := encRes{Flav: fl}
 		func() {
 			defer func() {
@@ -205,8 +253,14 @@ func (c *c18) encCase(fx encFix, kind, cls string, v []byte) {
 		}()
 		rs = append(rs, r)
 	}
-	conv.VerifNativeFlavour("avx2")
-	c.out.Emit(map[string]interface{}{"ev": "Enc", "kind": kind, "cls": cls, "v": B(v), "res": rs, "case": map[string]interface{}{"enc": kind, "cls": cls, "v": B(v)}})
+	tag := map[string]interface{}{"enc": kind, "cls": cls, "v": B(v)}
+	c.add(job18{mark: c.marker(tag), run: func(fl string) {
+		if fl != "go" { // the text encoders are native code: there is no portable twin to compare
+			one(fl)
+		}
+	}, emit: func() {
+		c.out.Emit(map[string]interface{}{"ev": "Enc", "kind": kind, "cls": cls, "v": B(v), "res": rs, "case": tag})
+	}})
 }
 
 func c18Main(args map[string]string) {
@@ -215,6 +269,7 @@ func c18Main(args map[string]string) {
 	c := &c18{g: newGpage(1 << 20)}
 	c.out = out
 	c.prop = "c18"
+	c.quiet = true
 	idx := 0
 	fx := newEncFix()
 	if cf := args["cases"]; cf != "" {
@@ -230,15 +285,14 @@ func c18Main(args map[string]string) {
 			}
 			json.Unmarshal(line, &probe)
 			idx++
+			c.idx = idx - 1
 			switch {
 			case probe.Enc != "":
 				if idx-1 >= startAt {
-					c.out.Begin(idx-1, probe)
 					c.encCase(fx, probe.Enc, probe.Cls, probe.V)
 				}
 			case probe.Skip != nil:
 				if idx-1 >= startAt {
-					c.out.Begin(idx-1, probe)
 					c.skipCase(probe.Skip.T, probe.Skip.B, probe)
 				}
 			default:
@@ -258,7 +312,6 @@ func c18Main(args map[string]string) {
 				if jc.Seed == 0 {
 					jc.Seed = int64(idx) * 7919
 				}
-				c.out.Begin(idx-1, jc)
 				c.j2tCase(jc)
 			}
 		})
@@ -267,6 +320,7 @@ func c18Main(args map[string]string) {
 	// random conforming and non-conforming documents (C02's generator)
 	for i := 0; i < atoi(args["n"]); i++ {
 		idx++
+		c.idx = idx - 1
 		if idx-1 < startAt {
 			continue
 		}
@@ -278,7 +332,6 @@ func c18Main(args map[string]string) {
 			x := genDoc(r, c.cur.From, c.cur, 0, o)
 			fixJX(&x)
 			jc := J2TCase{Variant: "random", J: &x, O: o, Seed: r.Int63()}
-			c.out.Begin(idx-1, jc)
 			c.j2tCase(jc)
 			// skipping: a conforming value of this descriptor, and a mutilated copy
 			v := convConforming(r, c.cur.From, c.cur, 0, false, false).Enc(nil)
@@ -295,11 +348,11 @@ func c18Main(args map[string]string) {
 	ps := syscall.Getpagesize()
 	for i := 0; i < atoi(args["nenc"]); i++ {
 		idx++
+		c.idx = idx - 1
 		if idx-1 < startAt {
 			continue
 		}
 		r := rand.New(rand.NewSource(seed*7777 + int64(i)))
-		c.out.Begin(idx-1, map[string]interface{}{"encrand": i, "seed": seed})
 		c.encCase(fx, "i64", "random", be8(int64(r.Uint64())>>uint(r.Intn(64))))
 		if fb := r.Uint64(); fb>>52&0x7ff != 0x7ff { // finite doubles only: t2j refuses NaN and infinities
 			c.encCase(fx, "f64", "random", be8(int64(fb)))
@@ -318,5 +371,6 @@ func c18Main(args map[string]string) {
 		}
 		c.encCase(fx, "str", fmt.Sprintf("len%d", n), []byte(sb.String()))
 	}
+	c.flush()
 	fmt.Printf("c18 cases=%d events=%d\n", c.cases, out.n)
 }
